@@ -31,7 +31,10 @@ func LIB(w io.Writer, n int, weights func(i, j int) int) (err error) {
 		fmt.Fprint(tw, "0\t")
 		fmt.Fprint(tw, "\n")
 	}
-	tw.Flush()
+	err = tw.Flush()
+	if err != nil {
+		return err
+	}
 	_, err = io.WriteString(w, "EOF\n")
 	if err != nil {
 		return err
